@@ -5,7 +5,7 @@ SPEC = dict(
     targets=["Properties/C04.vo", "Corr/C04.vo"],
     args=lambda tier, seed: ["-seed", seed, "-mix", "c04", "-n", 160 if tier == "quick" else 3000, "-events", 40],
     search_args=lambda seed: ["-seed", seed, "-mix", "c04", "-n", 400, "-events", 40],
-    shard=12, timeout=2400,
+    shard=4, timeout=2400,
     patterns={2: "C04-edge-rounding"},
     rule="seeded scripts of <= 40 events against an established connection of the real stack (ISS/IRS adjacent to 0, 2^31, 2^32 and random; peer MSS 20..1460, peer window scale none/0..3, own window scale 0 or 5, timestamps, SACK, IPv4/IPv6, receive buffer 100/300/700/1000/4096 bytes or 1 MB, send buffer 200/1000/4096 bytes or 1 MB): peer window advertisements from {0,1,7,50,200,1000,4000,30000,65535} raw on every peer segment, peer data in order / ahead / overlapping / far beyond the window, application writes of 1..40*MSS, paced reads, cumulative / partial / duplicate / beyond / old ACKs, triple duplicate ACKs, retransmission time-outs; after EVERY event the implementation's protocol state, emitted frames and application result are compared with Model.Tcp.step, and the monitor Corr.C04.spec checks on the implementation's observations alone: peer window scaled before use, new data within sndUna+sndWnd, retransmissions within the highest edge ever offered, segment length <= maxPayload / MSS option / MTU, advertised window = clamp((rcvAcc-rcvNxt)>>scale), advertised edge <= rcvAcc and never moving left, delivered bytes = prefix of the peer stream covered by segments that were not wholly outside the window, in-order in-window data delivered at once, zero window when the buffer is full, window update on the reopening read; tag = bit set of classes reached (1 zero own window, 2 window-limited send, 4 scaled peer window, 8 scaled own window, 16 small receive buffer, 32 retransmission beyond a shrunk window, 64 peer zero window with data waiting, 128 in-order in-window delivery, 256 reopening read, 512 buffer full, 1024 edge rounding); distinct = distinct case lines",
     trusted_base=TCP_TB, assumptions=TCP_ASSUME,
